@@ -24,7 +24,9 @@ replay = F.replay
 
 def env_suite(ctx, model_ok):
     """JWT_CRYPTO at library initialisation: re-execute the executor per value"""
-    vals = [None, b"", b"openssl", b"gnutls", b"OpenSSL", b"gnutls ", b"junk", b"gnutl", b"x" * 200]
+    vals = [None, b"", b"openssl", b"gnutls", b"OpenSSL", b"gnutls ", b"junk", b"gnutl", b"x" * 200,
+            # the names are matched exactly: another spelling of the provider that is NOT the default selects nothing
+            b"GnuTLS", b"GNUTLS", b"Gnutls", b"gnutlS", b" gnutls", b"gnutls\n", b"gnutlsx", b"gnutls,openssl", b"OPENSSL", b"gnutls" + b" " * 40, b"g" + b"n" * 31]
     evals, bad, samples = 0, 0, []
     for v in vals:
         env = {} if v is None else {"JWT_CRYPTO": v.decode()}
@@ -48,7 +50,7 @@ def env_suite(ctx, model_ok):
             bad += 1
             ctx.violation("falsifier:env", "JWT_CRYPTO=%r selected `%s`, expected `%s`" % (v, got, want_line), replay_lines=["# JWT_CRYPTO=%r" % v, "provget"])
     ctx.add_suite("jwt-crypto-env", evaluations=evals, distinct_nontrivial=len({s["impl"] for s in samples}) + 1,
-                  rule="JWT_CRYPTO in {unset, empty, each provider name, case variant, trailing space, junk, prefix, 200 bytes}: provider current after library init",
+                  rule="JWT_CRYPTO in {unset, empty, each provider name, case variants of both names, leading/trailing space, newline, suffix, list, junk, prefix, 32 and 200 bytes}: provider current after library init",
                   exhaustive=True, samples=samples[:4], disagreements=bad, falsified=bad)
 
 
